@@ -25,7 +25,8 @@ ANCHORS = ["PropertyDescriptor.__set__", "PropertyDescriptor._ensure_monitored_t
            "MonitoredList.extend", "MonitoredList.insert", "MonitoredList.__setitem__", "MonitoredSet.add",
            "MonitoredSet.update", "MonitoredContainer._on_add"]
 
-LIST_OPS = ["assign_new", "assign_self", "iadd", "append", "extend", "insert", "setitem", "setslice", "extend_self", "iadd_alias"]
+LIST_OPS = ["assign_new", "assign_self", "iadd", "append", "extend", "insert", "setitem", "setslice", "extend_self", "iadd_alias",
+            "setitem_rejected"]
 SET_OPS = ["assign_new", "assign_self", "ior", "add", "update", "update_multi", "ior_alias"]
 # the argument of extend / += / slice assignment / update may be any iterable, also a one-shot one
 ARG_FORMS = ["list", "list", "tuple", "gen", "iter", "map", "reversed"]
@@ -112,6 +113,8 @@ def witnesses():
                                                           "ops": [["add", [1], 0, "list"]]},
         "first-assignment-unhashable-elements": {"kind": "list", "n_other": 3, "start": [0, 1], "start_form": "ctor", "odd": True, "odd_cls": "Crate",
                                                  "ops": [["append", [2], 0, "list"]]},
+        "rejected-item-assignment-recorded": {"kind": "list", "n_other": 3, "start": [0], "start_form": "ctor",
+                                              "ops": [["setitem_rejected", [1], 0, "list"], ["append", [2], 0, "list"], ["setitem_rejected", [1], 1, "list"]]},
         "set-ior-erases-field": {"kind": "set", "n_other": 3, "start": [0], "start_form": "ctor", "ops": [["ior", [1], 0]]},
     }
 
@@ -429,6 +432,21 @@ def run(spec, ctx):
                 a = pos % (len(model) + 1)
                 cont[a:a + 1] = as_argument(vals, form)
                 model[a:a + 1] = vals
+            elif op == "setitem_rejected":
+                # an item assignment that Python rejects: nothing becomes part of the field, nothing is recorded
+                if not vals:
+                    continue
+                C["rejected_item_assignments"] += 1
+                try:
+                    if pos % 2 == 0 or len(model) < 2:
+                        cont[len(model) + pos % 3] = vals[0]                 # IndexError
+                    else:
+                        cont[::2] = [vals[0]] * (len(model[::2]) + 1)        # ValueError: wrong size for an extended slice
+                    problems.append(f"an item assignment that a list rejects was accepted (field of {len(model)} elements)")
+                    break
+                except (IndexError, ValueError):
+                    pass
+                vals = []
             elif op == "add":
                 if not vals:
                     continue
